@@ -813,6 +813,49 @@ fn timeout_orphan_case(prop: &str, idx: u64, root: &Path) -> CaseRec {
     CaseRec { op: format!("namer - {0} case=orphan.{idx}", hex(b"doc.md")), impl_out: hex(b"doc.md"), oracle_fail: keep_own(prop, fails), nontrivial: false, tags: vec!["e2e:timeout-orphan".into(), format!("e2e:orphan-limit={limit}")] }
 }
 
+/// the directories scrut creates live below $TMPDIR (or --work-directory), whose path may hold any character: with a
+/// `$`, a backtick, a backslash or a quote in it the state of the test cases must still be carried, and nothing may
+/// be created anywhere else or stay behind.
+/// idx: name (6) x TMPDIR / --work-directory (2)
+fn odd_tmpdir_case(prop: &str, idx: u64, root: &Path) -> CaseRec {
+    let names = ["t m p", "t$HOME", "t\"q", "t'q x", "t`echo x`", "t\\n$(echo y)"];
+    let name = names[(idx % 6) as usize];
+    let workdir = idx / 6 % 2 == 1;
+    let dir = root.join(format!("odd-{idx}"));
+    let _ = std::fs::remove_dir_all(&dir);
+    let odd = dir.join(name);
+    let plain_tmp = dir.join("plain-tmp");
+    std::fs::create_dir_all(&odd).unwrap();
+    std::fs::create_dir_all(&plain_tmp).unwrap();
+    let doc = dir.join("doc.md");
+    std::fs::write(&doc, "# a\n\n```scrut\n$ X=carried\n```\n\n# b\n\n```scrut\n$ echo $X\ncarried\n```\n").unwrap();
+    let mut cmd = std::process::Command::new(scrut_bin());
+    cmd.arg("test");
+    if workdir {
+        cmd.arg("--work-directory").arg(&odd).env("TMPDIR", &plain_tmp);
+    } else {
+        cmd.env("TMPDIR", &odd);
+    }
+    let out = cmd.arg(&doc).current_dir(&dir).env("HOME", "/nonexistent-home").output().expect("run scrut");
+    let code = out.status.code().unwrap_or(-1);
+    let mut fails = vec![];
+    if code != 0 {
+        fails.push(("C18:odd-tmpdir-run".into(), format!("directory name {name:?} ({}): the state of the first test case did not reach the second, exit {code}", if workdir { "--work-directory" } else { "TMPDIR" })));
+    }
+    let list = |d: &Path| -> Vec<String> { let mut v: Vec<String> = std::fs::read_dir(d).map(|r| r.filter_map(|e| e.ok()).map(|e| e.file_name().to_string_lossy().to_string()).collect()).unwrap_or_default(); v.sort(); v };
+    let inside = list(&odd);
+    if !inside.is_empty() {
+        fails.push(("C18:leftover".into(), format!("directory name {name:?}: {:?} left inside it after exit {code}", inside)));
+    }
+    let mut around = list(&dir);
+    around.retain(|n| n != name && n != "plain-tmp" && n != "doc.md");
+    if !around.is_empty() || !list(&plain_tmp).is_empty() {
+        fails.push(("C18:created-elsewhere".into(), format!("directory name {name:?}: scrut created {:?} next to it (and {:?} in the other temporary directory)", around, list(&plain_tmp))));
+    }
+    let _ = std::fs::remove_dir_all(&dir);
+    CaseRec { op: format!("namer - {0} case=odd.{idx}", hex(b"doc.md")), impl_out: hex(b"doc.md"), oracle_fail: keep_own(prop, fails), nontrivial: false, tags: vec!["e2e:odd-tmpdir".into(), format!("e2e:odd-workdir={workdir}")] }
+}
+
 pub fn run(ctx: &Ctx, prop: &str) {
     let root = std::env::temp_dir().join(format!("scrut-verif-envdir-{}", std::process::id()));
     std::fs::create_dir_all(&root).unwrap();
@@ -832,6 +875,8 @@ pub fn run(ctx: &Ctx, prop: &str) {
     ctx.run_stream("e2e-abort-after-big", if ctx.thorough { 16 } else { 4 }, false, |idx| Some(abort_after_big_case(prop, idx, &r2)));
     let r2 = root.clone();
     ctx.run_stream("e2e-timeout-orphan-exhaustive", 16, true, |idx| Some(timeout_orphan_case(prop, idx, &r2)));
+    let r2 = root.clone();
+    ctx.run_stream("e2e-odd-tmpdir-exhaustive", 12, true, |idx| Some(odd_tmpdir_case(prop, idx, &r2)));
     // 3. namer: exhaustive over request sequences up to length 4 over {a, a-1, b} x existing subsets of {a, a-1, a-2, b}
     let names = ["a", "a-1", "b"];
     let exist = ["a", "a-1", "a-2", "b"];
@@ -889,6 +934,7 @@ pub fn replay(prop: &str, op: &str) -> bool {
         }
         (Some("namer"), Some(["conc", idx])) => concurrent_case(prop, idx.parse().unwrap_or(0), &root),
         (Some("namer"), Some(["abort", idx])) => abort_after_big_case(prop, idx.parse().unwrap_or(0), &root),
+        (Some("namer"), Some(["odd", idx])) => odd_tmpdir_case(prop, idx.parse().unwrap_or(0), &root),
         (Some("namer"), Some(["orphan", idx])) => timeout_orphan_case(prop, idx.parse().unwrap_or(0), &root),
         (Some("namer"), _) if parts.len() == 3 => {
             let f = |s: &str| -> Vec<String> { if s == "-" { vec![] } else { s.split(',').map(|h| String::from_utf8_lossy(&unhex(h)).to_string()).collect() } };
